@@ -31,9 +31,43 @@ KEY = [
 ]
 
 
+def _canonical_run(run):
+    """`HpcSubmitter.run` with the locals the patterns below mention renamed to the names used there, identified by what
+    they are bound to — so that renaming a local (`lock_file` -> `marker`) is not mistaken for a change of the round."""
+    ren = {}
+
+    def bind(target, name):
+        if isinstance(target, ast.Name):
+            if ren.get(target.id, name) != name:
+                raise SiteError(f"local {target.id} plays two roles: {ren[target.id]}, {name}")
+            ren[target.id] = name
+
+    for st in walk_stmts(run):
+        if isinstance(st, ast.For) and src(st.iter) == "self._cluster.config.submission_groups":
+            bind(st.target, "group")
+        if not (isinstance(st, ast.Assign) and len(st.targets) == 1):
+            continue
+        t, v = st.targets[0], st.value
+        vs = src(v)
+        if "LOCK_FILENAME" in vs:
+            bind(t, "lock_file")
+        elif isinstance(v, ast.Call) and src(v.func) == "JobQueue":
+            bind(t, "queue")
+        elif vs == "self._is_complete()":
+            bind(t, "is_complete")
+        elif vs == "self._update_completed_jobs()" and isinstance(t, ast.Tuple) and len(t.elts) == 2:
+            bind(t.elts[0], "completed_job_names")
+            bind(t.elts[1], "canceled_jobs")
+        elif isinstance(t, ast.Name) and "outstanding_jobs" in vs:
+            bind(t, "hpc_job_ids")
+    # `blocked_jobs` / `submitted_jobs` are both bound to `[]`: they cannot be told apart by their binding, and naming them
+    # after their argument position would hide a swap — a rename of those two makes the site stale (baseline + correspondence).
+    return rename_locals(run, ren)
+
+
 @site("round.order", "Round", P)
 def _():
-    run = find_def(HPCSUB, "HpcSubmitter.run")
+    run = _canonical_run(find_def(HPCSUB, "HpcSubmitter.run"))
     acts = []
     gated = None
 
